@@ -149,6 +149,8 @@ class Summaries:
             return VecV(())
         if b == 'Option':
             return NONE
+        if b == 'Expiration':
+            return Agg('Expiration', (), 2, 'Never')
         if b == 'U256':
             return Agg('U256', (0,))
         if b in ('Uint256',):
@@ -398,7 +400,7 @@ class Summaries:
         A('cmp', r'<(Uint128|Decimal|u8|u32|u64|u128|usize|bool|U256|Uint64|Timestamp|cosmwasm_bignumber::Uint256|'
                  r'cosmwasm_bignumber::Decimal256|math::Uint256|math::Decimal256) as (PartialOrd|Ord)>::'
                  r'(lt|le|gt|ge|cmp|partial_cmp|min|max)$|core::cmp::(min|max)$', h_cmp)
-        A('Ordering::reverse', r'Ordering::reverse$|^reverse$',
+        A('Ordering::reverse', r'Ordering::reverse$',
           lambda st, fn, callee, args, dty: self.h_ord_reverse(st, args))
 
         # ---------------- Uint128 / Decimal arithmetic
@@ -867,6 +869,15 @@ class Summaries:
           simple(lambda st, s: eqv(self.to_str(st, s).id, I.intern(''))))
         A('to_lowercase', r'str::to_lowercase$|^std::str::to_lowercase$|str::to_ascii_lowercase$', simple(lambda st, s: self.lower(st, s)))
 
+        A('str::trim', r'str::trim(_start|_end)?$|^core::str::trim$', simple(lambda st, s: self.to_str(st, s)))
+
+        def h_verify_logo(st, fn, callee, args, dty):
+            # logo validation (XML/PNG sniffing) is outside every claim: arbitrary verdict
+            st2 = st.clone()
+            yield st2, err(Agg('ContractError', (), 0, 'InvalidLogo'))
+            yield st, ok(UNIT)
+        A('verify_logo (havoc)', r'^verify_logo$|cw20_base::contract::verify_logo$', h_verify_logo)
+
         # ---------------- cosmwasm api
         A('addr_validate', r'Api>::addr_validate$', simple(lambda st, api, s: ok(Agg('Addr', (self.to_str(st, s),)))))
         A('addr_canonicalize', r'Api>::addr_canonicalize$', simple(lambda st, api, s: ok(Agg('CanonicalAddr', (self.to_str(st, s),)))))
@@ -959,6 +970,15 @@ class Summaries:
             if isinstance(inner, Agg) and inner.ty == 'JsonErr':
                 yield st, err(stderr(I.S('parse error')))
                 return
+            if isinstance(inner, Agg) and inner.ty == 'OpaqueBinary':
+                # arbitrary bytes: either they do not parse, or they parse to an arbitrary value of the target type
+                if not tys:
+                    raise Gap('from_json of opaque binary without a target type')
+                st2 = st.clone()
+                yield st2, err(stderr(I.S('parse error')))
+                from .symval import fresh_value
+                yield st, ok(fresh_value(I, st, tys[0], fn.crate, 'parsed'))
+                return
             yield st, ok(self.wire_convert(st, inner, tys[0] if tys else None, fn.crate))
         A('from_json', r'^(cosmwasm_std::)?from_json$|^(cosmwasm_std::)?from_binary$|^(cosmwasm_std::)?from_slice$', h_from_json)
 
@@ -970,6 +990,20 @@ class Summaries:
 
         # ---------------- misc numerics
         A('to_be_bytes', r'core::num::<impl u\d+>::to_be_bytes$|^core::num::to_be_bytes$', simple(lambda st, x: KeyV((x,))))
+
+        def h_is_expired(st, fn, callee, args, dty):
+            block = I.val(st, args[1])
+            height = block.fields[0]
+            time = self.num(st, block.fields[1])
+            for st2, e in self.conc(st, args[0]):
+                if e.vname == 'AtHeight':
+                    yield st2, height >= e.fields[0]
+                elif e.vname == 'AtTime':
+                    yield st2, time >= self.num(st2, e.fields[0])
+                else:
+                    yield st2, False
+        A('Expiration::is_expired', r'Expiration::is_expired$', h_is_expired)
+        A('Expiration default', r'<Expiration as Default>::default$', simple(lambda st: Agg('Expiration', (), 2, 'Never')))
 
         # ---------------- cw2
         A('cw2', r'set_contract_version$', simple(lambda st, *a: ok(UNIT)))
